@@ -21,7 +21,7 @@ func ArpaLabels() []string {
 	return []string{
 		"0", "1", "9", "10", "255", "256", "00", "01", "000", "a", "f", "A", "g", "aa", "1a", "",
 		"in-addr", "IN-addr", "İn-addr", "xin-addr", "ip6", "Ip6", "İp6", "xip6", "arpa", "ARPA",
-		"arpa-", "com", "é", "\xff", "-", "_a", "K", "ın-addr", "x255", "host100",
+		"arpa-", "com", "é", "\xff", "-", "_a", "K", "ın-addr", "x255", "host100", "::ffff:4", "::4",
 	}
 }
 
@@ -31,7 +31,7 @@ var arpaRoots = []string{
 	"İn-addr.arpa", "İp6.arpa", "in-addr.arpa\x00", "in-addr.ARPA", "ıp6.arpa", "ip6.arpK", "in\raddr.arpa", "ip\x16.arpa", "in-addr\x0earpa", "IN\rADDR.ARPA", "ip6\x0earpa",
 }
 
-var v4PrefixLabels = []string{"0", "1", "9", "10", "99", "100", "255", "256", "00", "01", "000", "1a", "a", "", "-1", "+1", "0x1", "1e1", "é", "１", "0377", "25５", "host192", "1234", "x255"}
+var v4PrefixLabels = []string{"0", "1", "9", "10", "99", "100", "255", "256", "00", "01", "000", "1a", "a", "", "-1", "+1", "0x1", "1e1", "é", "１", "0377", "25５", "host192", "1234", "x255", "::ffff:4", "0:0:0:0:0:ffff:4"}
 
 var hexd = "0123456789abcdef"
 
@@ -140,6 +140,17 @@ func NameFamilies(thorough bool) []Family {
 	// numeric TLDs of every width (overflowing integer parsers)
 	for n := 1; n <= 64; n++ {
 		lens = append(lens, "example."+Rep("9", n), "example."+Rep("1", n), "example.1"+Rep("0", n), "_srv.example."+Rep("7", n), Rep("4", n), "a."+Rep("0", n), "example.18446744073709551616"[:8+min(n, 20)])
+	}
+	// exactly 126 / 127 / 128 one-byte labels
+	for _, n := range []int{125, 126, 127} {
+		lens = append(lens, Rep("a.", n)+"b", Rep("a.", n)+"b.", Rep("1.", n)+"b", "_"+Rep("a.", n)+"b")
+	}
+	// raw text longer than 253 bytes although the Punycode form is valid, with upper-case ASCII and ARPA tails
+	for _, unit := range []string{"あ", "中", "é"} {
+		l := Rep(unit, 50)
+		for _, tail := range []string{".Example", ".10.In-Addr.Arpa", ".a.Ip6.ARPA", ".example"} {
+			lens = append(lens, l+"."+l+tail, l+"."+l+"."+l+tail)
+		}
 	}
 	fams = append(fams, List("lengths", lens))
 	fams = append(fams, Alpha("alpha_name", []string{"a", "1", "-", "_", ".", "A", "é", "\xff"}, pick(6, 7)))
